@@ -371,6 +371,70 @@ static void allocation_case(uint64_t N, int T, unsigned rep) {
   case_end(1);
 }
 
+// neighbours: the threads' private polynomials are adjacent slots of ONE array (thread t owns slots t, t+T, t+2T, ...), as
+// when a matrix of polynomials is split between workers. A thread must not even rewrite a neighbour's words with the
+// values it read there (a wide read-modify-write of the bytes behind a short vector): the owner may be updating them.
+typedef struct {
+  const MODULE* mod;
+  int64_t* arr;
+  const int64_t* inc;
+  uint64_t N;
+  int t, T, slots, iters;
+  pthread_barrier_t* bar;
+} cadj_t;
+static void* cadj_worker(void* arg) {
+  cadj_t* c = arg;
+  const uint64_t N = c->N;
+  pthread_barrier_wait(c->bar);
+  for (int it = 0; it < c->iters; it++)
+    for (int s = c->t; s < c->slots; s += c->T) {
+      int64_t* x = c->arr + (uint64_t)s * N;
+      switch (it % 4) {
+        case 0: vec_znx_add(c->mod, x, 1, N, x, 1, N, c->inc, 1, N); break;
+        case 1: vec_znx_sub(c->mod, x, 1, N, x, 1, N, c->inc, 1, N); break;
+        case 2: vec_znx_add(c->mod, x, 1, N, c->inc, 1, N, x, 1, N); break;
+        default: vec_znx_negate(c->mod, x, 1, N, x, 1, N); vec_znx_negate(c->mod, x, 1, N, x, 1, N); vec_znx_add(c->mod, x, 1, N, x, 1, N, c->inc, 1, N); break;
+      }
+    }
+  return 0;
+}
+static void adjacent_slots_case(uint64_t N, MODULE_TYPE mt, int T, unsigned rep) {
+  char key[96];
+  snprintf(key, sizeof key, "concurrent:adjacent polynomials of one array|T=%d%s", T, mt == NTT120 ? ",ntt120" : "");
+  if (!case_begin(key, "N=%" PRIu64 " rep=%u", N, rep)) return;
+  rng_t* r = crng();
+  tsan_reports_in_case = 0;
+  MODULE* mod = new_module_info(N, mt);
+  const int slots = 4 * T, iters = N <= 8 ? 20000 : 2000;
+  int64_t* arr = malloc((uint64_t)slots * N * 8 + 64);
+  int64_t* start = malloc((uint64_t)slots * N * 8 + 64);
+  int64_t* inc = malloc(N * 8 + 64);
+  for (uint64_t i = 0; i < (uint64_t)slots * N; i++) arr[i] = start[i] = rng_sbits(r, 40);
+  for (uint64_t i = 0; i < N; i++) inc[i] = 1 + (int64_t)(rng_u64(r) % 5);
+  cadj_t c[MAXT];
+  pthread_t tid[MAXT];
+  pthread_barrier_t bar;
+  pthread_barrier_init(&bar, 0, (unsigned)T);
+  for (int t = 0; t < T; t++) {
+    c[t] = (cadj_t){mod, arr, inc, N, t, T, slots, iters, &bar};
+    pthread_create(&tid[t], 0, cadj_worker, &c[t]);
+  }
+  for (int t = 0; t < T; t++) pthread_join(tid[t], 0);
+  pthread_barrier_destroy(&bar);
+  // per 4 iterations: +inc, -inc, +inc, +inc  =>  net 2*inc; iters is a multiple of 4
+  uint64_t wrong = 0;
+  for (int s = 0; s < slots; s++)
+    for (uint64_t i = 0; i < N; i++)
+      if (arr[(uint64_t)s * N + i] != start[(uint64_t)s * N + i] + (int64_t)(iters / 4) * 2 * inc[i]) wrong++;
+  if (wrong) viol("differential", "%" PRIu64 " coefficients of polynomials that are adjacent slots of one array (N=%" PRIu64 ", each slot updated in place by exactly one of %d threads) lost updates", wrong, N, T);
+  if (tsan_reports_in_case) viol("tsan", "ThreadSanitizer produced %d report(s) while %d threads updated adjacent polynomials of one array (N=%" PRIu64 ")", tsan_reports_in_case, T, N);
+  delete_module_info(mod);
+  free(arr); free(start); free(inc);
+  cnt("adjacent_slot_updates", (uint64_t)slots * (uint64_t)iters);
+  sample("%d slots of N=%" PRIu64 " coefficients, %d threads, %d in-place updates per slot, every coefficient as expected", slots, N, T, iters);
+  case_end(1);
+}
+
 // thread churn: waves of short-lived threads (each lives for two calls per entry point, then exits; hundreds of threads
 // per case): whatever the library keeps per thread must be set up correctly in every new thread and must not outlive it
 // in a way that hurts the threads that come later
@@ -524,6 +588,14 @@ void run_C12(void) {
     conc_case(1, 0, 48, 2, 2100 + rep);
   }
   force_dims[0] = force_dims[1] = 0;
+  {
+    static const uint64_t AN[] = {2, 1, 4, 8, 64};
+    for (size_t i = 0; i < ARRAY_LEN(AN); i++)
+      for (int mt = 0; mt < 2; mt++) {
+        if (AN[i] == 1 && mt == 0) continue;  // no FFT64 module for N = 1
+        for (unsigned rep = 0; rep < (th ? 4u : 1u); rep++) adjacent_slots_case(AN[i], mt ? NTT120 : FFT64, rep & 1 ? 4 : 8, rep);
+      }
+  }
   // the warmed-up simple API at the largest and the smallest dimension together
   force_dims[0] = 65536;
   force_dims[1] = 2;
